@@ -140,6 +140,8 @@ def base_config(draw, nmin=16, nmax=64, max_laststep=60, min_laststep=1, multibu
     decoy = draw(st.integers(10, 200))
     o["InterpolationPoints"] = draw(st.sampled_from([1, 2, 3, 4, 4]))
     o["derivation"] = draw(st.sampled_from([3, 4]))
+    if draw(st.integers(0, 2)) == 0:
+        o["InterpolateClamped"] = True        # documented option (saturation of the interpolation); no effect on the CPU path
     o["FPType"] = draw(st.sampled_from([0, 1, 2, 3, 3, 3]))
     o["RenormalizeCharge"] = draw(st.sampled_from([-1, 0, 0, 1, 3]))
     o["LinearRF"] = draw(st.booleans())
